@@ -9,6 +9,7 @@ no state between passes.
 -/
 import Pko.Lemmas.ObjectSet
 import Pko.Model.Slices
+import Pko.Model.RemoteNs
 
 namespace Pko.Props.C04
 open Pko.Kube Pko.Model.Phase Pko.Model.ObjectSet Pko.Model.Status
@@ -41,7 +42,7 @@ theorem delete_notFound_iff (s : Store) (k : Key) (u rv : Nat) :
 /-- a teardown step reports "done" only for an object that is gone in the sense above. -/
 theorem teardownPhaseObject_done (cfg : Cfg) (ow : Owner) (p : PObj) (w : World)
     (h : (teardownPhaseObject cfg ow p w).2 = .done) : ObjGone cfg ow p w := by
-  simp only [teardownPhaseObject] at h
+  simp only [teardownPhaseObject, watch_store, watch_beforeWrite_store] at h
   cases hpf : preflightObj cfg ow "" false p with
   | violation => exact Or.inl hpf
   | error => simp [hpf] at h
@@ -471,5 +472,102 @@ example :
   exact ⟨rfl, rfl, rfl⟩
 
 end sliced
+
+/-! ### Delegated phases and the ObjectSet's namespace (`Pko.Model.RemoteNs`)
+
+The theorems above hold for every behaviour `remote` of delegated phases.  The remote-phase
+teardown of the code looks at the ObjectSet's Namespace first; these are the facts about it the
+property rests on: whatever the client answers for the Namespace, a delegated phase counts as
+done only when its phase object is gone or not ours, and no managed object is written. -/
+section namespace_aware
+open Pko.Model.Remote Pko.Model.RemoteNs
+
+/-- The plain remote teardown reports done only if the phase object is gone or not the ObjectSet's. -/
+theorem remoteTeardown_done (o : OSet) (ph : PhaseSpec) (w : World)
+    (h : (remoteTeardown o ph w).2 = .done) :
+    w.phases (phaseName o ph) = none ∨
+    ∃ cur, w.phases (phaseName o ph) = some cur ∧ (cur.ctrlName ≠ o.name ∨ cur.ctrlUID ≠ o.uid) := by
+  unfold remoteTeardown at h
+  cases hp : w.phases (phaseName o ph) with
+  | none => exact Or.inl rfl
+  | some cur =>
+    right
+    refine ⟨cur, rfl, ?_⟩
+    simp only [hp] at h
+    by_cases hours : cur.ctrlName ≠ o.name ∨ cur.ctrlUID ≠ o.uid
+    · exact hours
+    · exfalso
+      simp only [if_neg hours] at h
+      split at h
+      · split at h <;> cases h
+      · cases h
+
+/-- **remoteTeardownNs_done.** Namespace there, in deletion or not found: the remote teardown
+reports done only if the phase object is gone or not the ObjectSet's — a NotFound for the
+Namespace is an error of the pass, a namespace in deletion makes the pass strip the phase
+object's finalizers and wait. -/
+theorem remoteTeardownNs_done (o : OSet) (ph : PhaseSpec) (w : World)
+    (h : (remoteTeardownNs o ph w).2 = .done) :
+    w.phases (phaseName o ph) = none ∨
+    ∃ cur, w.phases (phaseName o ph) = some cur ∧ (cur.ctrlName ≠ o.name ∨ cur.ctrlUID ≠ o.uid) := by
+  cases hp : w.phases (phaseName o ph) with
+  | none => exact Or.inl rfl
+  | some cur =>
+    by_cases hours : cur.ctrlName ≠ o.name ∨ cur.ctrlUID ≠ o.uid
+    · exact Or.inr ⟨cur, rfl, hours⟩
+    · exfalso
+      unfold remoteTeardownNs at h
+      simp only [hp, if_neg hours] at h
+      have hplain : (remoteTeardown o ph w).2 ≠ .done := by
+        intro hd
+        rcases remoteTeardown_done o ph w hd with h0 | ⟨c, hc, hn⟩
+        · rw [hp] at h0; cases h0
+        · rw [hp] at hc; cases hc; exact hours hn
+      split at h
+      · exact hplain h
+      · split at h
+        · cases h
+        · split at h
+          · exact hplain h
+          · split at h
+            · cases h
+            · split at h <;> cases h
+
+/-- With the Namespace there and not in deletion the namespace branch is never taken: the
+namespace-aware teardown IS the plain one (the drivers run `Remote.remotes` itself on such passes). -/
+theorem remoteTeardownNs_live (o : OSet) (ph : PhaseSpec) (w : World)
+    (h : nsLive w.store o.ns = true) : remoteTeardownNs o ph w = remoteTeardown o ph w := by
+  simp only [remoteTeardownNs]
+  cases hp : w.phases (phaseName o ph) with
+  | none => simp [remoteTeardown, hp]
+  | some cur =>
+    simp only
+    by_cases hours : cur.ctrlName ≠ o.name ∨ cur.ctrlUID ≠ o.uid
+    · simp [remoteTeardown, hp, hours]
+    · simp only [hours, ↓reduceIte]
+      by_cases hns : o.ns = ""
+      · simp [hns]
+      · simp only [hns, ↓reduceIte]
+        unfold nsLive at h
+        cases hg : w.store.get (nsKey o.ns) with
+        | none => simp [hns, hg] at h
+        | some nso =>
+          simp only [hns, hg, decide_false, Bool.false_or] at h
+          simp [h]
+
+/-- The plain remote teardown writes no managed object. -/
+theorem remoteTeardown_events (o : OSet) (ph : PhaseSpec) (w : World) :
+    (remoteTeardown o ph w).1.events = w.events := by
+  simp only [remoteTeardown]
+  (repeat' split) <;> simp [setPhase, freshRV, World.tick]
+
+/-- The remote teardown writes no managed object, whatever the Namespace looks like
+(hypothesis `hrem` of `teardown_reverse`). -/
+theorem remoteTeardownNs_events (o : OSet) (ph : PhaseSpec) (w : World) :
+    (remoteTeardownNs o ph w).1.events = w.events := by
+  simp only [remoteTeardownNs]
+  (repeat' split) <;> simp [remoteTeardown_events, setPhase, freshRV, World.tick]
+
+end namespace_aware
 
 end Pko.Props.C04
